@@ -129,7 +129,23 @@ func main() {
 			for _, y := range axis(bb.Min.Y, bb.Max.Y, N2) {
 				p := v2.Vec{X: x, Y: y}
 				n++
-				if !judge(nd.Name, nd.Root, nd.Kind, scale, res{s.Evaluate(p), ref(p), p}, func() map[string]any { return map[string]any{"shape": nd.Name, "dim": 2, "point": p} }) {
+				real, rv := s.Evaluate(p), ref(p)
+				// the 2D union prunes operands by their bounding boxes; that is only valid for operands whose value is
+				// at least the distance to their own box.  With an operand that is not a distance field (documented for
+				// non-uniform scaling; also intersections such as GearRack2D) the pruned value can exceed the pointwise
+				// minimum while the sign stays right: a listed finding, recognised by EvaluateSlow agreeing with the
+				// reference.  With exact operands any such difference is reported as an ordinary violation.
+				if us, ok := s.(*sdf.UnionSDF2); ok && !nd.OperandExact && nd.Kind == shapes.RefValue && !math.IsNaN(rv) {
+					tol := 1e-9 * (1 + scale)
+					if math.Abs(real-rv) > tol*(1+math.Abs(rv)) && (real < 0) == (rv < 0) && real > rv {
+						if slow := us.EvaluateSlow(p); math.Abs(slow-rv) <= tol*(1+math.Abs(rv)) {
+							c.Violation("denotation|UnionSDF2|value|box-pruning-with-an-operand-that-is-not-a-distance-field", fmt.Sprintf("%s at %v: Evaluate %g, EvaluateSlow and the pointwise minimum %g (same sign)", nd.Name, p, real, rv), map[string]any{"shape": nd.Name, "dim": 2, "point": p})
+							atomic.AddInt64(&cmp, n)
+							return
+						}
+					}
+				}
+				if !judge(nd.Name, nd.Root, nd.Kind, scale, res{real, rv, p}, func() map[string]any { return map[string]any{"shape": nd.Name, "dim": 2, "point": p} }) {
 					atomic.AddInt64(&cmp, n)
 					return
 				}
@@ -481,6 +497,68 @@ func main() {
 					bad("Intersect3D(nested union, sphere)", p, g, w)
 					break
 				}
+			}
+		}
+		// plain unions nested in plain unions, directly and through a transform, with far-apart inner operands: the
+		// outer union is the pointwise minimum whatever scratch space the inner evaluation uses
+		{
+			a, b, d := cir(-3, 0), cir(3, 0.3), cir(0, 2)
+			in := sdf.Union2D(a, b)
+			for k, outer := range []sdf.SDF2{
+				sdf.Union2D(in, d), sdf.Union2D(d, in), sdf.Union2D(sdf.Transform2D(in, sdf.Translate2d(v2.Vec{X: 0.25})), d),
+				sdf.Union2D(sdf.Union2D(in, cir(0, -2.5)), d), sdf.Union2D(sdf.Union2D(a), sdf.Union2D(b), sdf.Union2D(d)),
+			} {
+				states++
+				for _, p := range p2 {
+					for _, q := range []v2.Vec{p, p.MulScalar(1.7), {X: p.Y, Y: p.X}} {
+						ia, ib := a.Evaluate(q), b.Evaluate(q)
+						want := math.Min(math.Min(ia, ib), d.Evaluate(q))
+						switch k {
+						case 2:
+							q2 := q.Sub(v2.Vec{X: 0.25})
+							want = math.Min(math.Min(a.Evaluate(q2), b.Evaluate(q2)), d.Evaluate(q))
+						case 3:
+							want = math.Min(want, cir(0, -2.5).Evaluate(q))
+						}
+						if g := outer.Evaluate(q); g != want {
+							c.Violation("Union2D(nested plain unions)|value-differs-from-the-pointwise-minimum", fmt.Sprintf("nesting %d at %v: %v, pointwise minimum of the leaves %v", k, q, g, want), map[string]any{"nesting": k, "point": q})
+							break
+						}
+					}
+				}
+			}
+		}
+		// transforms that are almost, but not exactly, the identity still map the point: very small models moved
+		// by very small amounts, and far-away models turned by very small angles
+		{
+			tiny := func(name string, got, want float64, scale float64) {
+				states++
+				if !(math.Abs(got-want) <= 1e-9*scale) {
+					c.Violation("denotation|"+name+"|near-identity-transform-not-applied", fmt.Sprintf("%s: value %g, operand at the mapped point %g", name, got, want), map[string]any{"case": name})
+				}
+			}
+			s10, _ := sdf.Sphere3D(1e-10)
+			c10, _ := sdf.Circle2D(1e-10)
+			for _, e := range []float64{6e-10, -3e-10, 1e-12} {
+				q3 := v3.Vec{X: e}
+				tiny(fmt.Sprintf("Transform3D[Translate(%g,0,0)](Sphere3D(1e-10))", e), sdf.Transform3D(s10, sdf.Translate3d(q3)).Evaluate(q3), -1e-10, 1e-10)
+				tiny(fmt.Sprintf("Transform3D[Translate(%g,0,0)](Sphere3D(1e-10)) at the origin", e), sdf.Transform3D(s10, sdf.Translate3d(q3)).Evaluate(v3.Vec{}), math.Abs(e)-1e-10, 1e-10)
+				q2 := v2.Vec{Y: e}
+				tiny(fmt.Sprintf("Transform2D[Translate(0,%g)](Circle2D(1e-10))", e), sdf.Transform2D(c10, sdf.Translate2d(q2)).Evaluate(q2), -1e-10, 1e-10)
+				tiny(fmt.Sprintf("Transform2D[Translate(0,%g)](Circle2D(1e-10)) at the origin", e), sdf.Transform2D(c10, sdf.Translate2d(q2)).Evaluate(v2.Vec{}), math.Abs(e)-1e-10, 1e-10)
+			}
+			far3 := sdf.Transform3D(sph(0, 0, 0), sdf.Translate3d(v3.Vec{X: 1e9}))
+			for _, a := range []float64{8e-10, -2e-10} {
+				// turning by a about z moves the far sphere by 1e9*a along y
+				r := sdf.Transform3D(far3, sdf.RotateZ(a))
+				tiny(fmt.Sprintf("Transform3D[RotateZ(%g rad)](sphere r=0.5 at x=1e9)", a), r.Evaluate(v3.Vec{X: 1e9, Y: 1e9 * a}), -0.5, 1e3)
+				far2 := sdf.Transform2D(cir(0, 0), sdf.Translate2d(v2.Vec{X: 1e9}))
+				r2 := sdf.Transform2D(far2, sdf.Rotate2d(a))
+				tiny(fmt.Sprintf("Transform2D[Rotate(%g rad)](circle r=0.5 at x=1e9)", a), r2.Evaluate(v2.Vec{X: 1e9, Y: 1e9 * a}), -0.5, 1e3)
+			}
+			for _, k := range []float64{1 + 1e-10, 1 - 1e-10} {
+				big, _ := sdf.Sphere3D(1e9)
+				tiny(fmt.Sprintf("ScaleUniform3D[%v](Sphere3D(1e9))", k), sdf.ScaleUniform3D(big, k).Evaluate(v3.Vec{X: 1e9 * k}), 0, 1e3)
 			}
 		}
 		// RotateToVector for parallel, anti-parallel and general direction pairs of any length: a sphere on the
